@@ -31,7 +31,9 @@ SHARD_TIMEOUT = {"quick": 240, "thorough": 3000}
 NSNAME = "Pyro.NameServer"
 NAMES = ["test", "Test", "TEST", "test.a", "test.b", "Test.a", "tes", "te%t", "te_t", "te.t", "%", "_", "a%", "axb", "a_b", "a.b", "a+b", "a*", "[ab]", "(x)", "ä", "Ä", "ß", "straße",
          "", NSNAME, "Pyro.NameServer2", "pyro.nameserver", "x" * 40, "a b", "ab\\c", "'quoted'", "semi;colon", "\"dq\"",
-         "42", "042", "1e2", "100", "+5", "0x10", " 7", "NULL", "nan"]        # number-like text must stay literal text (sqlite column affinity)
+         "42", "042", "1e2", "100", "+5", "0x10", " 7", "NULL", "nan",
+         # characters from the whole of unicode, also right after a prefix that is listed / removed (collation and byte order must not matter)
+         "test.\U0001F600", "test.\U00010348.deep", "te\uffff", "te\uffffx", "test\U0010FFFF", "a\U0001F600", "te\x7f", "te\x01", "ä\U0001F600"]        # number-like text must stay literal text (sqlite column affinity)
 TAGS = ["t", "T", "tag%", "tag_", "a", "b", "ä", "", "class:x", "x.y", "[", "%", "7", "07", "7.0"]
 PREFIXES = ["te", "Te", "test", "TEST", "test.", "te%", "te_", "%", "_", "a", "a%", "a_", "a.", "ä", "Ä", "Pyro", "pyro", "", "[", "ab\\", "'", "x" * 40, "st", "0", "4", "1"]
 REGEXES = ["te.*", "test\\..", "TEST", "[Tt]est", ".*", "a.b", "a\\+b", "a+b", "%", "_", "(", "[", "*", "ä", "te%t", "Pyro\\..*", "", "a|t", "^te", "st$", ".*e$", "[0-9]+", "0.*"]
